@@ -325,7 +325,21 @@ fn gen_fault(rng: &mut Rng, files: &[FileSpec]) -> Fault {
         12 => Fault::ExtendHash { file, alg },
         13 => Fault::CorruptSize {
             file,
-            delta: *rng.pick(&[-1i64, 1, 2, -7, 1000, 256]),
+            // also differences a truncating comparison would not see (multiples
+            // of 2^8, 2^16, 2^32; wave 17, C12-54)
+            delta: *rng.pick(&[
+                -1i64,
+                1,
+                2,
+                -7,
+                1000,
+                256,
+                1 << 16,
+                1 << 32,
+                3 << 32,
+                1 << 31,
+                1 << 40,
+            ]),
         },
         14 => Fault::DropChecksum { file, alg },
         15 => Fault::DropSize { file },
